@@ -1082,7 +1082,25 @@ class SigGen:
                                  Arg('ix', 'iarr1', 'in'), Arg('res', 'resarr', 'out')], 'dmod', role='driver')
         self.gen_driver(drv, kernels)
         self.add_hazard(kernels, drv)
+        # routines that are not reachable from the driver are not part of the Scheduler's call tree: a routine
+        # left untransformed that calls a transformed one would be an inconsistency of the *input* project
+        reach = set()
+        todo = list(drv.calls)
+        while todo:
+            c = todo.pop()
+            if c in reach:
+                continue
+            reach.add(c)
+            todo += [x for k in kernels if k.name == c for x in k.calls]
+        kernels = [k for k in kernels if k.name in reach]
         self.kernels, self.drv = kernels, drv
+        depth = {}
+        def dep(name):
+            if name not in depth:
+                ks = [k for k in kernels if k.name == name]
+                depth[name] = 1 + max([dep(c) for c in ks[0].calls] + [0]) if ks else 1
+            return depth[name]
+        self.features.add('call_depth_%d' % max([dep(c) for c in drv.calls] + [0]))
         files = [('tmod.F90', self.tmod_text())]
         for mod in ['kmod2', 'kmod']:
             ks = [k for k in kernels if k.module == mod]
